@@ -2,8 +2,10 @@
 EXTENDS ISFormat, Json, IOUtils, SequencesExt
 CONSTANTS Mode
 Shapes == {"short", "under", "at", "over", "nested", "multiline-str", "trailing-comma", "collapse"}
-Cases == [clean : BOOLEAN, fmtcmd : BOOLEAN, opts : OptIds, cwd : {"root", "sub", "outside"}, shape : Shapes,
-          cats : {"create", "fix", "create-fix"}]
+Cases == {x \in [clean : BOOLEAN, fmtcmd : BOOLEAN, opts : OptIds, cwd : {"root", "sub", "outside"}, shape : Shapes,
+                  cats : {"create", "fix", "create-fix"}, loc : {"own", "outer", "gitstop"}] :
+             \* (the other locations only with black as the formatter, and with options that differ from the defaults)
+             x.loc # "own" => (~x.fmtcmd /\ x.opts # 0)}
 VARIABLES c, step
 Init == c \in Cases /\ step = 0
 Next == step = 0 /\ step' = 1 /\ UNCHANGED c
